@@ -20,24 +20,22 @@ def without_f9(s):  # on top of without_f10
     return s[:k] + s[m:]
 
 def without_f11(s):
-    s = s.replace('''		// P1's own profile claim: profiles derived from P1 declare
-		// themselves here
-		PsaProfile string `cbor:"-75000,keyasint"`
-''', '')
-    s = s.replace('''	name := selector.Profile
-	if name == "" {
-		name = selector.PsaProfile
-	}
-
-	entry, ok := profilesRegister[name]
-	if !ok {
-		return nil, fmt.Errorf("unknown profile: %q", name)
-	}
-''', '''	entry, ok := profilesRegister[selector.Profile]
+    # back to dispatch on key 265 only (undoes F11 and its refinement F11b)
+    a = s.index("		// P1's own profile claim: profiles derived from P1 declare")
+    b = s.index('	}{}', a)
+    s = s[:a] + s[b:]
+    a = s.index('	name := selector.Profile\n')
+    b = s.index('	claims := entry.Profile.GetClaims()')
+    s = s[:a] + '''	entry, ok := profilesRegister[selector.Profile]
 	if !ok {
 		return nil, fmt.Errorf("unknown profile: %q", selector.Profile)
 	}
-''')
+
+''' + s[b:]
+    a = s.index('	// a profile selected through P1\'s profile claim must be one that reads')
+    b = s.index('	return claims, nil', a)
+    s = s[:a] + s[b:]
+    s = s.replace('\n\tcbor "github.com/fxamacker/cbor/v2"\n', '\n', 1).replace('\t"fmt"\n\n)', '\t"fmt"\n)')
     return s
 
 variants = {'revert-F10.diff': without_f10(src), 'revert-F9.diff': without_f9(without_f10(src)), 'revert-F11.diff': without_f11(src)}
